@@ -1,6 +1,8 @@
 package verifsim
 
 import (
+	"google.golang.org/grpc"
+	"google.golang.org/protobuf/types/known/wrapperspb"
 	"github.com/avos-io/goat/gen/goatorepo"
 	"bytes"
 	"context"
@@ -553,6 +555,7 @@ type C11Params struct {
 	Mode    int         `json:"mode"` // 0 handler returns after k of n, 1 caller cancels with m unread, 2 caller stops reading without cancelling, 3 handler stops reading (stays) while the caller sends on and then cancels
 	Others  []*CallSpec `json:"others"`
 	Probe   *CallSpec   `json:"probe"`
+	Warmup  int         `json:"warmup,omitempty"` // streams the connection has carried (and the server has ended) before the scenario starts
 }
 
 func genC11(g *rand.Rand, tier string) any {
@@ -629,6 +632,11 @@ func genC11(g *rand.Rand, tier string) any {
 			// cannot receive before it has finished sending
 			a.CProg = []Op{{K: 's', N: n}, {K: 'c'}, {K: 'R'}}
 			a.SeqCaller = true
+			if g.IntN(2) == 0 {
+				// not the connection's first streams: what the server remembers about the
+				// streams it ended is bounded
+				p.Warmup = 40 + g.IntN(120)
+			}
 		}
 	} else {
 		if a.Kind == KCStream {
@@ -736,6 +744,27 @@ func execC11(e *Env, pp any) {
 	pr := sim.Add(p.Probe)
 	srv := sim.NewServer()
 	net := Build(e, TopoSpec{Kind: TopoDirect, Clients: 1, Links: p.Links}, srv, nil)
+	if p.Warmup > 0 {
+		// the connection's earlier life: Warmup short streams, each ended by its handler
+		sim.DefaultStream = func(kind int, ss grpc.ServerStream) error { return nil }
+		wdone := false
+		e.Go("caller.warmup", func() {
+			for i := 0; i < p.Warmup; i++ {
+				st, err := net.CCs[0].NewStream(context.Background(), streamDescs[KBidi], methodNames[KBidi])
+				if err != nil {
+					break
+				}
+				st.CloseSend()
+				for st.RecvMsg(new(wrapperspb.BytesValue)) == nil {
+				}
+			}
+			wdone = true
+		})
+		if rr := e.Drive(func() bool { return wdone }); rr == Crashed || rr == StepLimit {
+			return
+		}
+		e.Note("abandon.after-warmup")
+	}
 	e.Go("caller.abandon", func() { sim.RunCall(net.CCs[0], ar) })
 	for _, c := range p.Others {
 		if c == nil || c.ID == p.Abandon.ID || c.ID == p.Probe.ID {
@@ -835,6 +864,9 @@ func execC11(e *Env, pp any) {
 				}
 			}
 		}
+	}
+	if !ar.Returned && p.Mode == 0 && ar.HReturned && ar.HRetErr == nil {
+		e.Violate("C02", "hang", "early-reply."+map[bool]string{true: "sequential-caller", false: "forked-caller"}[p.Abandon.SeqCaller], "the handler replied and returned success after %d of %d messages; its caller (connection's %d-th stream) never gets its reply or io.EOF\n%s", p.Abandon.EarlyK, p.Abandon.CSendN, p.Warmup+1, e.WaitGraph())
 	}
 	if !ar.Returned && p.Mode != 2 {
 		e.Violate(prop, "hang", site+".self", "the abandoned stream's own client program has not finished\n%s", e.WaitGraph())
@@ -1311,8 +1343,28 @@ func init() {
 		}, Faulty: true, FaultKinds: []string{"link.readFail", "link.writeFail"}})
 	Register(&Family{Name: "c10.shutdown", ShrinkKeys: []string{"calls", "pos"}, Props: []string{"C10"}, New: func() any { return &C10Params{} }, Gen: genC10, Exec: execC10,
 		Faulty: true, FaultKinds: []string{"link.readFail", "link.writeFail", "server.stop", "link.stall"}})
-	Register(&Family{Name: "c11.abandon", ShrinkKeys: []string{"others"}, Props: []string{"C11", "C05"}, New: func() any { return &C11Params{} }, Gen: genC11, Exec: execC11,
+	Register(&Family{Name: "c11.abandon", ShrinkKeys: []string{"others"}, Props: []string{"C11", "C05", "C02"}, New: func() any { return &C11Params{} }, Gen: genC11, Exec: execC11,
 		Faulty: true, FaultKinds: []string{"handler.abandon", "ctx.cancel"}})
+	// c02.longconn: the ordinary client-streaming exchange with a handler that replies early
+	// (Recv x k, SendAndClose; caller Send x n, CloseAndRecv) on a low-buffer transport, as
+	// the connection's (W+1)-th stream for W around the bounds of what a server may remember
+	Register(&Family{Name: "c02.longconn", ShrinkKeys: []string{}, Props: []string{"C02", "C11"}, New: func() any { return &C11Params{} }, Exec: execC11,
+		Gen: func(g *rand.Rand, tier string) any {
+			p := &C11Params{Links: []LinkCfg{{Cap: g.IntN(2), Serialise: g.IntN(2) == 0, Strict: g.IntN(2) == 0}, {Cap: g.IntN(2), Serialise: g.IntN(2) == 0, Strict: g.IntN(2) == 0}}}
+			n := 5 + g.IntN(4)
+			k := g.IntN(n - 4)
+			a := &CallSpec{ID: 1, Kind: KCStream, MsgLen: []int{10, 10, -1, 300}[g.IntN(4)], CSendN: n, HSendN: 1, Early: true, EarlyK: k, SeqCaller: true} // MsgLen -1: messages that encode to zero bytes
+			if k > 0 {
+				a.HProg = append(a.HProg, Op{K: 'r', N: k})
+			}
+			a.HProg = append(a.HProg, Op{K: 's', N: 1})
+			a.CProg = []Op{{K: 's', N: n}, {K: 'c'}, {K: 'R'}}
+			p.Abandon = a
+			p.Warmup = []int{0, 1, 30, 63, 64, 65, 100, 130, 200}[g.IntN(9)]
+			p.Probe = &CallSpec{ID: 99, Kind: KUnary, ReqLen: 12, RespLen: 12}
+			return p
+		},
+		Faulty: true, FaultKinds: []string{"handler.abandon"}})
 	Register(&Family{Name: "c14.history", ShrinkKeys: []string{"n", "inflight"}, Props: []string{"C14"}, New: func() any { return &C14Params{} }, Gen: genC14, Exec: execC14,
 		Faulty: true, FaultKinds: []string{"ctx.cancel", "ctx.deadline", "open.writeFail", "handler.abandon"}})
 	Register(&Family{Name: "c20.outcomes", ShrinkKeys: []string{"n", "inflight"}, Props: []string{"C20"}, New: func() any { return &C14Params{} }, Gen: func(g *rand.Rand, tier string) any {
